@@ -146,6 +146,11 @@ impl<A: ToVal, B: ToVal, C: ToVal> ToVal for (A, B, C) {
         Val::T(vec![self.0.to_val(), self.1.to_val(), self.2.to_val()])
     }
 }
+impl<A: ToVal, B: ToVal, C: ToVal, D: ToVal> ToVal for (A, B, C, D) {
+    fn to_val(&self) -> Val {
+        Val::T(vec![self.0.to_val(), self.1.to_val(), self.2.to_val(), self.3.to_val()])
+    }
+}
 impl<A: FromVal, B: FromVal> FromVal for (A, B) {
     fn from_val(v: &Val) -> Self {
         let t = v.tuple();
